@@ -2,7 +2,7 @@ package spec
 
 type C14Case struct {
 	Proto     string   `json:"proto"`     // netrpc | grpc
-	ServerTLS string   `json:"serverTLS"` // none | static
+	ServerTLS string   `json:"serverTLS"` // none | static | ignorecert (serves plain text and ignores PLUGIN_CLIENT_CERT)
 	ClientTLS string   `json:"clientTLS"` // none | static | wrongca | auto
 	Mux       bool     `json:"mux"`
 	OldPlugin bool     `json:"oldPlugin"` // plugin that does not advertise multiplexing (pre-mux)
